@@ -205,6 +205,9 @@ class LoaderGroup(Generic[_K, _L]):
         LoaderGroup
             A loader group instance with updated molecules.
         """
+        from acryo.loader._base import _normalize_max_shifts
+
+        max_shifts = _normalize_max_shifts(max_shifts)
         all_tasks: list[DaskTaskList[AlignmentResult]] = []
         template_map = _normalize_template(template)
         input_shape: tuple[int, int, int] | None = None
@@ -320,6 +323,9 @@ class LoaderGroup(Generic[_K, _L]):
         LoaderGroup
             A loader group with updated molecules.
         """
+        from acryo.loader._base import _normalize_max_shifts
+
+        max_shifts = _normalize_max_shifts(max_shifts)
         all_tasks: list[DaskTaskList[AlignmentResult]] = []
         template_map = _normalize_template(templates)
         input_shape: tuple[int, int, int] | None = None
